@@ -899,17 +899,11 @@ class SimpleShape(DefinedShape):
             return self.__contains_simple(other)
         if isinstance(other, ConnectedShape):
             # cap S_i in S_j = any_i (bar S_j in bar S_i)
-            contains = False
-            self.invert()
+            inverted = ~self
             for subshape in other.subshapes:
-                subshape.invert()
-                if self in subshape:
-                    contains = True
-                subshape.invert()
-                if contains:
-                    break
-            self.invert()
-            return contains
+                if inverted in (~subshape):
+                    return True
+            return False
         # Disjoint shape
         for subshape in other.subshapes:
             if subshape not in self:
